@@ -110,6 +110,27 @@ def msg_type_value(m: Value) -> Value:
     return ("sub", m, ("const", "type"))
 
 
+def denial_wrapper(p: Program, call: FuncInfo, idx: int):
+    """(function, class | None) of the receive (idx 1) / send (idx 2) wrapper that WebsocketDenialResponse.__call__ hands to the HTTP
+    response: a nested function, or a method of a holder object built in __call__ from a class of the module"""
+    resp_calls = [c for c in calls_in(call) if isinstance(c.func, ast.Attribute) and c.func.attr == "response" and len(c.args) == 3]
+    if not resp_calls:
+        return None, None
+    a = resp_calls[0].args[idx]
+    if isinstance(a, ast.Name):
+        return nested_fn(call, a.id, passed_as_argument(call)), None
+    if isinstance(a, ast.Attribute) and isinstance(a.value, ast.Name):
+        for st in ast.walk(call.node):
+            if isinstance(st, ast.Assign) and len(st.targets) == 1 and isinstance(st.targets[0], ast.Name) and st.targets[0].id == a.value.id and isinstance(st.value, ast.Call) and isinstance(st.value.func, ast.Name):
+                try:
+                    hc = p.cls(f"{WS}:{st.value.func.id}")
+                except Exception:
+                    hc = None
+                if hc is not None and hc.methods.get(a.attr) is not None:
+                    return hc.methods.get(a.attr), hc
+    return None, None
+
+
 def denial_receive_rule(p: Program):
     """The receive channel that WebsocketDenialResponse hands to the HTTP response translates the server's
     websocket.disconnect into the http.disconnect the streaming responses wait for: on every path that returns after a
@@ -120,20 +141,7 @@ def denial_receive_rule(p: Program):
     if call is None:
         raise AnalysisError("WebsocketDenialResponse.__call__ vanished")
     resp_calls = [c for c in calls_in(call) if isinstance(c.func, ast.Attribute) and c.func.attr == "response" and len(c.args) == 3]
-    rname = ast.unparse(resp_calls[0].args[1]) if resp_calls else None
-    wr = nested_fn(call, rname, passed_as_argument(call)) if rname else None
-    wr_cls = None
-    a1 = resp_calls[0].args[1] if resp_calls else None
-    if wr is None and isinstance(a1, ast.Attribute) and isinstance(a1.value, ast.Name):
-        # <holder>.<method> of a holder object built in this function from a class of the module
-        for st in ast.walk(call.node):
-            if isinstance(st, ast.Assign) and len(st.targets) == 1 and isinstance(st.targets[0], ast.Name) and st.targets[0].id == a1.value.id and isinstance(st.value, ast.Call) and isinstance(st.value.func, ast.Name):
-                try:
-                    hc = p.cls(f"{WS}:{st.value.func.id}")
-                except Exception:
-                    hc = None
-                if hc is not None and hc.methods.get(a1.attr) is not None:
-                    wr, wr_cls = hc.methods.get(a1.attr), hc
+    wr, wr_cls = denial_wrapper(p, call, 1)
     if wr is None:
         if resp_calls and isinstance(resp_calls[0].args[1], ast.Name) and resp_calls[0].args[1].id in call.params:
             return [("violation", call, resp_calls[0], "raw receive handed to the response",
@@ -470,21 +478,25 @@ def run(p: Program, rep: Report, tier: str) -> None:
         else:
             rep.violation("R11.4", construct(f"{WS}:WEBSOCKET_DENIAL_RESPONSE_MAPPING", text=str(sorted(mapping.items()))), f"{p.module(WS).relpath}:{p.module(WS).constants['WEBSOCKET_DENIAL_RESPONSE_MAPPING'].lineno}",
                           "the denial-response event mapping is not {http.response.start/body -> websocket.http.response.start/body}")
-    ws_send = nested_fn(call, "ws_send", passed_as_argument(call))
+    ws_send, ws_send_cls = denial_wrapper(p, call, 2)
+    if ws_send is None:
+        ws_send = nested_fn(call, "ws_send", passed_as_argument(call))
     if ws_send is not None:
         rep.analysed(ws_send.fq)
-        paths, col, it = run_paths(p, ws_send, None)
+        paths, col, it = run_paths(p, ws_send, ws_send_cls)
         for pa in paths:
-            sends = [e for e in pa.events if e.kind == "call" and e.a in (("free", "send"), ("param", "send"))]
+            sends = [e for e in pa.events if e.kind == "call" and (e.a in (("free", "send"), ("param", "send")) or (e.a[0] == "attr" and e.a[1] == ("param", "self") and "send" in str(e.a[2])))]
             if pa.exit == "return" and sends:
                 guard = [f for f, t in pa.facts if f[0] == "cmp" and f[1] == "In" and "MAPPING" in show(f[3])]
-                if guard and all(t is True for f, t in pa.facts if f in guard):
+                # `mapped = MAPPING.get(msg['type']); if mapped is None: raise` is the same guard
+                got_ = [f for f, t in pa.facts if f[0] == "cmp" and f[1] == "Is" and f[3] == ("const", None) and "MAPPING" in show(f[2]) and ".get(" in show(f[2])]
+                if (guard and all(t is True for f, t in pa.facts if f in guard)) or (got_ and all(t is False for f, t in pa.facts if f in got_)):
                     rep.ok("R11.4", "ws_send forwards only message types found in the mapping")
                 else:
                     rep.violation("R11.4", construct(ws_send, text="unguarded forward"), where(ws_send), "ws_send forwards a message whose type is not in the denial mapping")
         # ws_send rewrites the message it is given IN PLACE; that is only sound if every message the HTTP response code hands
         # to send() is a dict built for that one call (a shared module-level message would be rewritten for all later uses)
-        mparam = ws_send.params[0] if ws_send.params else "msg"
+        mparam = (ws_send.params[1] if ws_send_cls is not None and len(ws_send.params) > 1 else ws_send.params[0]) if ws_send.params else "msg"
         in_place = [n for n in ast.walk(ws_send.node) if isinstance(n, (ast.Assign, ast.AugAssign)) and any(isinstance(t, ast.Subscript) and isinstance(t.value, ast.Name) and t.value.id == mparam
                     for t in (n.targets if isinstance(n, ast.Assign) else [n.target]))]
         if not in_place:
